@@ -37,7 +37,7 @@ def run(chk, tier, jobs, deadline):
     # inside an API call is a choice point (free of time: the files' time stamps change at that moment)
     for tp in ("tls", "btls", "utls"):
         cells.append(("tp=%s,phase=creds-change,menu=0" % tp, 1 if q else 2))
-    dl = deadline or (420 if q else 2700)
+    dl = deadline or (420 if q else 1500)
     tot1, cnt1 = msgfamily.run_configs(chk, "h_nb", cells, PREFIXES, jobs, dl * 0.5,
                                        counter_names={1: "api_calls_monitored_h_nb"})
     cov1 = dict(chk.coverage)
